@@ -571,6 +571,8 @@ func genCase(c *cond, r *rand.Rand) *vcase {
 type verdict struct {
 	Exp string // "T", "F", "E" or "NJ"
 	Why string
+	// NoT: whatever else is unspecified, the evaluation must not SUCCEED (a declared parameter has no value)
+	NoT bool `json:",omitempty"`
 }
 
 func merge(first, second map[string]W) map[string]W {
@@ -605,14 +607,14 @@ func judge(c *cond, merged map[string]W) verdict {
 		}
 	}
 	if len(failed) > 0 {
-		return verdict{"E", "unconvertible:" + strings.Join(failed, ",")}
+		return verdict{Exp: "E", Why: "unconvertible:" + strings.Join(failed, ",")}
 	}
 	if len(nj) > 0 {
-		return verdict{"NJ", "undocumented-wire-form"}
+		return verdict{Exp: "NJ", Why: "undocumented-wire-form"}
 	}
 	r := eval(c.Expr, env)
 	if r.St == rNJ {
-		return verdict{"NJ", "arithmetic-corner:" + r.Why}
+		return verdict{Exp: "NJ", Why: "arithmetic-corner:" + r.Why}
 	}
 	if len(missing) > 0 {
 		if r.St == rOK {
@@ -624,26 +626,27 @@ func judge(c *cond, merged map[string]W) verdict {
 					un = false
 				}
 			}
+			// ... except for the part of the statement that holds on any reading: "rather than succeed"
 			if un {
-				return verdict{"NJ", "missing-unused"}
+				return verdict{Exp: "NJ", Why: "missing-unused", NoT: true}
 			}
-			return verdict{"NJ", "missing-shortcircuited"}
+			return verdict{Exp: "NJ", Why: "missing-shortcircuited", NoT: true}
 		}
-		return verdict{"E", "missing-needed"}
+		return verdict{Exp: "E", Why: "missing-needed"}
 	}
 	switch r.St {
 	case rOK:
 		if r.V.K != vBool {
-			return verdict{"NJ", "non-bool"}
+			return verdict{Exp: "NJ", Why: "non-bool"}
 		}
 		if r.V.B {
-			return verdict{"T", "true"}
+			return verdict{Exp: "T", Why: "true"}
 		}
-		return verdict{"F", "false"}
+		return verdict{Exp: "F", Why: "false"}
 	case rErr:
-		return verdict{"E", "cel-error:" + r.Why}
+		return verdict{Exp: "E", Why: "cel-error:" + r.Why}
 	}
-	return verdict{"NJ", "unknown"}
+	return verdict{Exp: "NJ", Why: "unknown"}
 }
 
 func (vc *vcase) signature(v verdict) string {
